@@ -268,27 +268,6 @@ def c26(ctx):
     return ctx.chk.merge(legs)
 
 
-PROPS = {
-    "C01": {"run": simple, "level": "exploration"},
-    "C02": {"run": c02, "level": "exploration"},
-    "C03": {"run": simple, "level": "exploration"},
-    "C04": {"run": c04, "level": "exploration"},
-    "C06": {"run": simple, "level": "exploration"},
-    "C07": {"run": simple, "level": "exploration"},
-    "C08": {"run": simple, "level": "exploration"},
-    "C09": {"run": legs("tables", "files"), "level": "exploration"},
-    "C10": {"run": c10, "level": "exploration"},
-    "C13": {"run": c13, "level": "exploration"},
-    "C23": {"run": simple, "level": "exploration"},
-    "C24": {"run": c24, "level": "exploration"},
-    "C31": {"run": simple, "level": "exploration"},
-    "C34": {"run": simple, "level": "fault_enumeration"},
-    "C28": {"run": simple, "level": "exploration",
-            "assumptions": ["'supported by the registry' is modelled by an own table over the 7 transfer syntax UIDs the generator uses (cross-checked against the registry at start; a mismatch makes the run inconclusive)"]},
-    "C29": {"run": simple, "level": "exploration",
-            "assumptions": ["requestor and acceptor run in one process over loopback TCP; timeouts (8 s per socket operation, 20 s per hand-shake) make a scenario inconclusive"]},
-    "C26": {"run": c26, "level": "fault_enumeration",
-            "assumptions": ["scaled-down writers (M < 1018) are reachable only through the cfg(dicom_rs_verif) constructor; every scaled-down witness is re-executed at M = 1018 before it counts"]},
 def c25(ctx):
     """Harness leg (write/read/prefix/strict/over-long monitors) + independent PS3.8 parser over
     every encoding the harness wrote to pdus.jsonl."""
@@ -345,8 +324,28 @@ def c25(ctx):
     return merged
 
 
+
 PROPS = {
     "C01": {"run": simple, "level": "exploration"},
+    "C02": {"run": c02, "level": "exploration"},
+    "C03": {"run": simple, "level": "exploration"},
+    "C04": {"run": c04, "level": "exploration"},
+    "C06": {"run": simple, "level": "exploration"},
+    "C07": {"run": simple, "level": "exploration"},
+    "C08": {"run": simple, "level": "exploration"},
+    "C09": {"run": legs("tables", "files"), "level": "exploration"},
+    "C10": {"run": c10, "level": "exploration"},
+    "C13": {"run": c13, "level": "exploration"},
+    "C23": {"run": simple, "level": "exploration"},
+    "C24": {"run": c24, "level": "exploration"},
+    "C31": {"run": simple, "level": "exploration"},
+    "C34": {"run": simple, "level": "fault_enumeration"},
+    "C28": {"run": simple, "level": "exploration",
+            "assumptions": ["'supported by the registry' is modelled by an own table over the 7 transfer syntax UIDs the generator uses (cross-checked against the registry at start; a mismatch makes the run inconclusive)"]},
+    "C29": {"run": simple, "level": "exploration",
+            "assumptions": ["requestor and acceptor run in one process over loopback TCP; timeouts (8 s per socket operation, 20 s per hand-shake) make a scenario inconclusive"]},
+    "C26": {"run": c26, "level": "fault_enumeration",
+            "assumptions": ["scaled-down writers (M < 1018) are reachable only through the cfg(dicom_rs_verif) constructor; every scaled-down witness is re-executed at M = 1018 before it counts"]},
     "C25": {"run": c25, "level": "exploration",
             "assumptions": [
                 "well-formed = AE titles / version names without leading or trailing spaces (PS3.8: "
